@@ -236,7 +236,7 @@ def main():
         'not_applicable': [{'property_id': p, 'reason': NOT_YET} for p in ALL if p not in CHECKS],
         'notes': 'Entry point ./check <Cxx> <quick|thorough>; VERIF_SEED selects the Hypothesis seed; VERIF_REPO '
                  '(default /repo) selects the tree under test. Known findings: KNOWN_FINDINGS.txt. Every check runs a '
-                 'second, thinned pass in a python -O child (asserts compiled away); its violations count as the check\'s own '
+                 'second, thinned pass in a python -O child (asserts compiled away, ASCII locale, another hash seed, DEBUG logging enabled); its violations count as the check\'s own '
                  '(DESIGN.md 1.4a).',
     }
     with open(os.path.join(HERE, 'MANIFEST.json'), 'w') as f:
